@@ -9,6 +9,10 @@ func ApplyFunc1ArrayType(dest, source NDArrayType, fn func(val ArrayType) ArrayT
 		for i := range destSlice {
 			destSlice[i] = fn(sourceSlice[i])
 		}
+		if _, native := dest.(*ndArrayType); !native {
+			// Unroll of a foreign (e.g. C-backed) array is a copy: write the result back
+			dest.CopyFrom(ArrayFromSliceArrayType(destSlice, dest.Shape()))
+		}
 
 		return
 	}
@@ -34,6 +38,10 @@ func AddToArrayTypeArray(dest, source NDArrayType) {
 		sourceSlice := source.Unroll()
 		for i := range destSlice {
 			destSlice[i] += sourceSlice[i]
+		}
+		if _, native := dest.(*ndArrayType); !native {
+			// Unroll of a foreign (e.g. C-backed) array is a copy: write the result back
+			dest.CopyFrom(ArrayFromSliceArrayType(destSlice, dest.Shape()))
 		}
 
 		return
